@@ -46,7 +46,7 @@ package search
 //@   at-call Insert@1 requires !s.aborted
 //@   at-call FailHigh requires !s.aborted
 //@   loop 1: invariant bs(b) == old(bs(b)) && histKept(b) && s.hstack.sp == old(s.hstack.sp) && len(s.ms.frames) == old(len(s.ms.frames)) + 1 && implies(old(s.aborted), s.aborted) && nodesOK(opts)
-//@   loop 1: modifies b.*, s.aborted, s.hstack.*, s.pv.*, s.ms.allocIx, s.ms.data.*, s.tt.data.*, s.ranker.history.*, s.ranker.captHist.*, s.ranker.continuations[0].*, s.ranker.continuations[1].*, opts.Counters.*, pck.*
+//@   loop 1: modifies b.*, s.aborted, s.hstack.*, s.pv.*, s.ms.*, s.tt.data.*, s.ranker.history.*, s.ranker.captHist.*, s.ranker.continuations[0].*, s.ranker.continuations[1].*, opts.Counters.*, pck.*
 //@
 //@ func (*Search).rankMovesQ
 //@   props C06
@@ -73,7 +73,7 @@ package search
 //@   ensures [nodes]   nodesOK(opts)
 //@   modifies b.*, s.aborted, s.hstack.*, s.pv.*, s.ms.*, s.tt.data.*, opts.Counters.*
 //@   loop 1: invariant bs(b) == old(bs(b)) && histKept(b) && s.hstack.sp == old(s.hstack.sp) && len(s.ms.frames) == old(len(s.ms.frames)) + 1 && implies(old(s.aborted), s.aborted) && nodesOK(opts)
-//@   loop 1: modifies b.*, s.aborted, s.hstack.*, s.pv.*, s.ms.allocIx, s.ms.data.*, s.tt.data.*, opts.Counters.*
+//@   loop 1: modifies b.*, s.aborted, s.hstack.*, s.pv.*, s.ms.*, s.tt.data.*, opts.Counters.*
 //@
 //@ func pvInfo view search
 //@   trusted read-only (builds a string)
@@ -89,11 +89,11 @@ package search
 //@   ensures [stacks] s.hstack.sp == old(s.hstack.sp) && len(s.ms.frames) == old(len(s.ms.frames))
 //@   modifies b.*, s.aborted, s.hstack.*, s.pv.*, s.ms.*, s.tt.data.*, s.ranker.history.*, s.ranker.captHist.*, s.ranker.continuations[0].*, s.ranker.continuations[1].*, opts.Counters.*, opts.PonderHit
 //@   loop 1: invariant bs(b) == old(bs(b)) && histKept(b) && s.hstack.sp == old(s.hstack.sp) && len(s.ms.frames) == old(len(s.ms.frames))
-//@   loop 1: modifies b.*, s.aborted, s.hstack.*, s.pv.*, s.ms.*, s.tt.data.*, s.ranker.history.*, s.ranker.captHist.*, s.ranker.continuations[0].*, s.ranker.continuations[1].*, opts.Counters.*, opts.PonderHit
+//@   loop 1: modifies b.*, s.aborted, s.hstack.*, s.pv.*, s.ms.*, s.tt.data.*, s.ranker.history.*, s.ranker.captHist.*, s.ranker.continuations[0].*, s.ranker.continuations[1].*, opts.Counters.*, opts.PonderHit, move, ponder, score
 //@   loop 2: invariant bs(b) == old(bs(b)) && histKept(b) && s.hstack.sp == old(s.hstack.sp) && len(s.ms.frames) == old(len(s.ms.frames))
-//@   loop 2: modifies b.*, s.aborted, s.hstack.*, s.pv.*, s.ms.*, s.tt.data.*, s.ranker.history.*, s.ranker.captHist.*, s.ranker.continuations[0].*, s.ranker.continuations[1].*, opts.Counters.*, opts.PonderHit
+//@   loop 2: modifies b.*, s.aborted, s.hstack.*, s.pv.*, s.ms.*, s.tt.data.*, s.ranker.history.*, s.ranker.captHist.*, s.ranker.continuations[0].*, s.ranker.continuations[1].*, opts.Counters.*, opts.PonderHit, move, ponder, score
 //@   loop 3: invariant bs(b) == old(bs(b)) && histKept(b) && s.hstack.sp == old(s.hstack.sp) && len(s.ms.frames) == old(len(s.ms.frames)) + 1
-//@   loop 3: modifies b.*
+//@   loop 3: modifies b.*, move
 //@
 //@ # ---- C07: principal variations.  Row `ply` of the triangular buffer starts at rowAt(ply) and holds
 //@ # ---- depth[ply] moves.  lineS is defined by recursion on the length (lineNil, lineCons); lineSeg
@@ -153,7 +153,7 @@ package search
 //@   ensures [stacks]  s.hstack.sp == old(s.hstack.sp) && len(s.ms.frames) == old(len(s.ms.frames))
 //@   modifies b.*, gbs, s.aborted, s.hstack.*, s.ms.*, s.tt.data.*, opts.Counters.*
 //@   loop 1: invariant gbs == old(gbs) && s.hstack.sp == old(s.hstack.sp) && len(s.ms.frames) == old(len(s.ms.frames)) + 1
-//@   loop 1: modifies b.*, gbs, s.aborted, s.hstack.*, s.ms.allocIx, s.ms.data.*, s.tt.data.*, opts.Counters.*
+//@   loop 1: modifies b.*, gbs, s.aborted, s.hstack.*, s.ms.*, s.tt.data.*, opts.Counters.*
 //@
 //@ # row `ply` of the buffer is a line accepted move by move from the current position; rows above it
 //@ # (plies < ply) are not touched
@@ -185,7 +185,7 @@ package search
 //@   loop 1: invariant rowLen(s, ply) && rowsAbove(s, ply)
 //@   loop 1: invariant keepsBelow(s.pv, rowAt(ply))
 //@   loop 1: invariant rowOK(s, ply)
-//@   loop 1: modifies b.*, gbs, s.aborted, s.hstack.*, s.pv.*, s.ms.allocIx, s.ms.data.*, s.tt.data.*, s.ranker.history.*, s.ranker.captHist.*, s.ranker.continuations[0].*, s.ranker.continuations[1].*, opts.Counters.*, pck.*
+//@   loop 1: modifies b.*, gbs, s.aborted, s.hstack.*, s.pv.*, s.ms.*, s.tt.data.*, s.ranker.history.*, s.ranker.captHist.*, s.ranker.continuations[0].*, s.ranker.continuations[1].*, opts.Counters.*, pck.*
 //@
 //@ # for the board / stack / budget clauses (C06, C08) the PV buffer operations are frame-only
 //@ func (*pv).insert view pvframe
